@@ -26,16 +26,22 @@ func c13assembleCases(g *Gen, dir string, assemble func(*generator.File, string)
 	n := g.N(40, 400)
 	for i := 0; i < n; i++ {
 		b := bodies[g.R.Intn(len(bodies))]
-		f := &generator.File{Name: "f.go", FileType: "go", PackageName: g.Pick([]string{"p", "pkg1"}), Header: []byte(g.Pick([]string{"", "// hdr\n\n", "//go:build !x\n\n// hdr\n\n"})), Imports: map[string]struct{}{}}
-		if g.Chance(0.5) {
-			f.Imports["fmt"] = struct{}{}
+		pkgName, header := g.Pick([]string{"p", "pkg1"}), g.Pick([]string{"", "// hdr\n\n", "//go:build !x\n\n// hdr\n\n"})
+		withFmt, withVar := g.Chance(0.5), g.Chance(0.3)
+		// a fresh File value per use (a file type is free to drain the buffers it is handed)
+		mk := func() *generator.File {
+			f := &generator.File{Name: "f.go", FileType: "go", PackageName: pkgName, Header: []byte(header), Imports: map[string]struct{}{}}
+			if withFmt {
+				f.Imports["fmt"] = struct{}{}
+			}
+			if withVar {
+				f.Vars.WriteString("v = 1\n")
+			}
+			f.Body.WriteString(b.body)
+			return f
 		}
-		if g.Chance(0.3) {
-			f.Vars.WriteString("v = 1\n")
-		}
-		f.Body.WriteString(b.body)
 		var buf bytes.Buffer
-		c13assembleText(&buf, f)
+		c13assembleText(&buf, mk())
 		text := buf.String()
 		formatted, ferr := format([]byte(text))
 		path := filepath.Join(dir, "f.go")
@@ -47,28 +53,34 @@ func c13assembleCases(g *Gen, dir string, assemble func(*generator.File, string)
 			createOK = false
 			cls = append(cls, "uncreatable")
 		}
-		err := assemble(f, path)
-		ec := list()
-		if err != nil {
-			switch {
-			case strings.Contains(err.Error(), "unable to format file"):
-				ec = list(atom("format"))
-			case strings.Contains(err.Error(), "is a directory"):
-				ec = list(atom("create"))
-			default:
-				ec = list(tag("?unclassified?", atom(err.Error())))
-			}
-		}
-		disk := list()
-		if st, e := os.Stat(path); e == nil && !st.IsDir() {
-			bs, _ := os.ReadFile(path)
-			disk = list(atom(string(bs)))
-		}
 		fo := list()
 		if ferr == nil {
 			fo = list(atom(string(formatted)))
 		}
-		g.Emit("C13.assemble", list(boolS(createOK), atom(text), fo), list(ec, disk), cls...)
+		// the same file is assembled again over what the first run left on disk: same report
+		for round := 0; round < 3; round++ {
+			err := assemble(mk(), path)
+			ec := list()
+			if err != nil {
+				switch {
+				case strings.Contains(err.Error(), "unable to format file"):
+					ec = list(atom("format"))
+				case strings.Contains(err.Error(), "is a directory"):
+					ec = list(atom("create"))
+				default:
+					ec = list(tag("?unclassified?", atom(err.Error())))
+				}
+			}
+			disk := list()
+			if st, e := os.Stat(path); e == nil && !st.IsDir() {
+				bs, _ := os.ReadFile(path)
+				disk = list(atom(string(bs)))
+			}
+			g.Emit("C13.assemble", list(boolS(createOK), atom(text), fo), list(ec, disk), cls...)
+			if round == 0 {
+				cls = append(cls, "assembled-again-over-its-own-output")
+			}
+		}
 		os.RemoveAll(path)
 	}
 }
